@@ -1,11 +1,4 @@
-//! Verification hooks. Only compiled with `--features verif-hooks`.
-//!
-//! This module is add-only instrumentation: thin wrappers that expose
-//! crate-private functions to an external verification harness. Nothing
-//! here changes behaviour of the server.
-#![allow(clippy::unwrap_used)]
-#![allow(clippy::expect_used)]
-#![allow(missing_docs)]
+//! C10: expose `ReplicationUpdateVector::range_diff`.
 
 use crate::prelude::*;
 use crate::repl::proto::ReplCidRange;
